@@ -1090,6 +1090,9 @@ type Req struct {
 type RCase struct {
 	Responders int   `json:"responders"`
 	Reqs       []Req `json:"reqs"`
+	// Decoys: ordinary actors of kind "response" with ids 1..Decoys are alive while the requests are
+	// made.  They have nothing to do with anybody's request: no reply may reach them.
+	Decoys int `json:"decoys,omitempty"`
 }
 
 type reqMsg struct {
@@ -1119,6 +1122,20 @@ func runRequests(c RCase) (map[string]int, error) {
 	e, err := actor.NewEngine(actor.NewEngineConfig())
 	if err != nil {
 		return nil, fmt.Errorf("harness: %v", err)
+	}
+	if c.Decoys < 0 || c.Decoys > 8 {
+		return nil, nil
+	}
+	var decoyGot atomic.Int64
+	for d := 1; d <= c.Decoys; d++ {
+		e.SpawnFunc(func(ctx *actor.Context) {
+			if _, ok := ctx.Message().(repMsg); ok {
+				decoyGot.Add(1)
+			}
+		}, "response", actor.WithID(fmt.Sprint(d)))
+	}
+	if c.Decoys > 0 {
+		feat["bystanders-of-kind-response"]++
 	}
 	mon := newMonitor(e)
 	// A first reply that becomes a dead letter while its requester has not even returned from Result()
@@ -1308,6 +1325,10 @@ func runRequests(c RCase) (map[string]int, error) {
 				out[i].err = fmt.Errorf("request %d: Result() failed with %v after %v, before its timeout of %v had passed", i, err, el, timeout)
 				return
 			case r.B == "reply" || r.B == "twice" || r.B == "twicelate":
+				if decoyGot.Load() > 0 {
+					out[i].err = fmt.Errorf("request %d (timeout %v) failed with %v, and %d replies were delivered to bystander actors of kind \"response\" that never asked anything", i, timeout, err, decoyGot.Load())
+					return
+				}
 				if early[i].Load() {
 					out[i].err = fmt.Errorf("request %d (timeout %v): the responder's reply became a DeadLetterEvent within 10 s of the request, while the requester was waiting in Result() - which then failed with %v: a reply sent in time did not reach the requester", i, timeout, err)
 					return
@@ -1362,6 +1383,9 @@ func runRequests(c RCase) (map[string]int, error) {
 	if err := mon.barrier(e, 1); err != nil {
 		return nil, err
 	}
+	if n := decoyGot.Load(); n > 0 {
+		return nil, fmt.Errorf("%d replies were delivered to bystander actors of kind \"response\" that never asked anything", n)
+	}
 	mon.mu.Lock()
 	defer mon.mu.Unlock()
 	for i, r := range c.Reqs {
@@ -1391,7 +1415,7 @@ func runRequests(c RCase) (map[string]int, error) {
 }
 
 func genRequests(t *rapid.T) RCase {
-	c := RCase{Responders: rapid.IntRange(1, 4).Draw(t, "responders")}
+	c := RCase{Responders: rapid.IntRange(1, 4).Draw(t, "responders"), Decoys: rapid.SampledFrom([]int{0, 0, 0, 3, 8}).Draw(t, "decoys")}
 	n := rapid.IntRange(1, 32).Draw(t, "n")
 	for i := 0; i < n; i++ {
 		c.Reqs = append(c.Reqs, Req{
